@@ -117,6 +117,18 @@ func c16Inputs(thorough bool) []c16case {
 	add("ios-raw-unused-same-name", "IOS", core.Files{Main: iosIntf("Ethernet0", "10.0.0.1")},
 		core.Files{Main: iosACLBody("inside_in", []int{0, 3}, c02Lines, false) + iosIntf("Ethernet0", "10.0.0.1", "ip access-group inside_in in"),
 			Raw: "ip access-list extended X1\n permit ip any any\nip access-list extended X2\n permit ip any any\ncrypto map X1 10 ipsec-isakmp\n set peer 10.1.1.1\n"})
+	// ASA / IOS: one name used for two command types, a generated left-over
+	// of only one of them on the device (first free index differs per type)
+	add("asa-same-name-two-types", "ASA", core.Files{Main: asaIntf + "object-group network foo-DRC-0\n network-object 10.0.6.0 255.255.255.0\n" +
+		"access-list old-DRC-0 extended permit ip object-group foo-DRC-0 any4\naccess-group old-DRC-0 in interface inside\n"},
+		core.Files{Main: "object-group network foo\n network-object 10.0.5.0 255.255.255.0\n network-object 10.0.7.0 255.255.255.0\n network-object 10.0.8.0 255.255.255.0\n" +
+			"access-list foo extended permit tcp object-group foo any4 eq 80\naccess-group foo in interface inside\n"})
+	add("asa-same-name-two-types-acl-leftover", "ASA", core.Files{Main: asaIntf + "access-list foo-DRC-0 extended permit ip host 10.0.6.1 any4\naccess-group foo-DRC-0 in interface outside\n"},
+		core.Files{Main: "object-group network foo\n network-object 10.0.5.0 255.255.255.0\n network-object 10.0.7.0 255.255.255.0\n" +
+			"access-list foo extended permit tcp object-group foo any4 eq 80\naccess-group foo in interface inside\n"})
+	add("ios-same-name-two-types", "IOS", core.Files{Main: "ip access-list extended foo-DRC-0\n permit ip host 10.0.6.1 any\n" + iosIntf("Ethernet1", "10.0.1.1", "ip access-group foo-DRC-0 in") + iosIntf("Ethernet0", "10.0.0.1")},
+		core.Files{Main: "ip access-list extended foo\n permit ip host 10.0.5.1 any\ncrypto map foo 1 ipsec-isakmp\n set ip access-group foo in\n set peer 10.156.4.206\n" +
+			iosIntf("Ethernet1", "10.0.1.1") + iosIntf("Ethernet0", "10.0.0.1", "crypto map foo")})
 	// NSX: identical groups on the device
 	ng := nsxGroupSpace("groups", 3)
 	for i := int64(0); i < ng.n; i++ {
